@@ -698,7 +698,24 @@ func (g *gen) node(mi int, m *Mod, sc *scope, where string, depth int) *Node {
 		if g.wantInvalid(InvUnknownType) {
 			n.Type = &Type{Ref: Ref{Mod: m.Name, Name: g.id("nosuchtype")}}
 		} else if g.wantInvalid(InvBadRange) {
-			n.Type = &Type{Ref: Ref{Mod: "", Name: "int32"}, Range: "10..1"}
+			switch t.Intn(6) {
+			case 0:
+				n.Type = &Type{Ref: Ref{Mod: "", Name: "int32"}, Range: "10..1"}
+			case 1:
+				// above everything the base type allows
+				n.Type = &Type{Ref: Ref{Mod: "", Name: "uint8"}, Range: "300"}
+			case 2:
+				n.Type = &Type{Ref: Ref{Mod: "", Name: "int8"}, Range: "-200..5"}
+			case 3:
+				n.Type = &Type{Ref: Ref{Mod: "", Name: "uint8"}, Range: "1..5|20..30|400"}
+			case 4:
+				n.Type = &Type{Ref: Ref{Mod: "", Name: "string"}, Length: "5..2"}
+			case 5:
+				// a refinement with a part above the parent's last range
+				td := &Typedef{Name: g.id("t"), Type: &Type{Ref: Ref{Mod: "", Name: "int32"}, Range: "1..10"}}
+				m.Typedefs = append(m.Typedefs, td)
+				n.Type = &Type{Ref: Ref{Mod: m.Name, Name: td.Name}, Range: "1..5|20..30"}
+			}
 		}
 		switch t.Weighted(6, 2, 1) {
 		case 1:
